@@ -2,6 +2,8 @@
 
 package hsms
 
+import "runtime"
+
 // Contracts and specification functions for the HSMS decoder (see /verif/DESIGN.md).
 
 // specDefinedSType: SType values defined by SEMI E37 (0 = data message).
@@ -55,6 +57,7 @@ func specIsItemCode(fc int) bool {
 
 //@ func (*parser).parseMessageLength
 //@   property C03 C07
+//@   allocates 0
 //@   bounded_view p.input
 //@   modifies p.pos, p.msgLength
 //@   requires p.pos == 0
@@ -79,7 +82,10 @@ func specIsItemCode(fc int) bool {
 //@   ensures ok && byteSize == 2 ==> forall i int :: 0 <= i && i < n ==> r.values[i] == int16(specBE16(p.input[q+2*i], p.input[q+2*i+1]))
 //@   ensures ok && byteSize == 4 ==> forall i int :: 0 <= i && i < n ==> r.values[i] == int32(specBE32(p.input[q+4*i], p.input[q+4*i+1], p.input[q+4*i+2], p.input[q+4*i+3]))
 //@   ensures ok && byteSize == 8 ==> forall i int :: 0 <= i && i < n ==> r.values[i] == int64(specBE64(p.input[q+8*i], p.input[q+8*i+1], p.input[q+8*i+2], p.input[q+8*i+3], p.input[q+8*i+4], p.input[q+8*i+5], p.input[q+8*i+6], p.input[q+8*i+7]))
+//@   allocates 64*length + 640
+//@   allocates_on_panic 64*length + 640
 //@   loop 1
+//@     invariant allocated() - old(allocated()) <= 16*valueCounts + 16*i
 //@     invariant 0 <= i && i <= valueCounts && valueCounts == n && length % byteSize == 0 && len(values) == n && fresh(values) && p.pos == q
 //@     invariant forall k int :: 0 <= k && k < i ==> isint(values[k])
 //@     invariant byteSize == 1 ==> forall k int :: 0 <= k && k < i ==> ival(values[k]) == int8(p.input[q+k])
@@ -104,7 +110,10 @@ func specIsItemCode(fc int) bool {
 //@   ensures ok && byteSize == 2 ==> forall i int :: 0 <= i && i < n ==> r.values[i] == specBE16(p.input[q+2*i], p.input[q+2*i+1])
 //@   ensures ok && byteSize == 4 ==> forall i int :: 0 <= i && i < n ==> r.values[i] == specBE32(p.input[q+4*i], p.input[q+4*i+1], p.input[q+4*i+2], p.input[q+4*i+3])
 //@   ensures ok && byteSize == 8 ==> forall i int :: 0 <= i && i < n ==> r.values[i] == specBE64(p.input[q+8*i], p.input[q+8*i+1], p.input[q+8*i+2], p.input[q+8*i+3], p.input[q+8*i+4], p.input[q+8*i+5], p.input[q+8*i+6], p.input[q+8*i+7])
+//@   allocates 64*length + 640
+//@   allocates_on_panic 64*length + 640
 //@   loop 1
+//@     invariant allocated() - old(allocated()) <= 16*valueCounts + 16*i
 //@     invariant 0 <= i && i <= valueCounts && valueCounts == n && length % byteSize == 0 && len(values) == n && fresh(values) && p.pos == q
 //@     invariant forall k int :: 0 <= k && k < i ==> isint(values[k])
 //@     invariant byteSize == 1 ==> forall k int :: 0 <= k && k < i ==> ival(values[k]) == p.input[q+k]
@@ -127,7 +136,10 @@ func specIsItemCode(fc int) bool {
 //@   ensures ok ==> typeis(dataItem, *FloatNode) && r.byteSize == byteSize && len(r.values) == n && len(r.variables) == 0
 //@   ensures ok && byteSize == 4 ==> forall i int :: 0 <= i && i < n ==> r.values[i] == f32frombits(specBE32(p.input[q+4*i], p.input[q+4*i+1], p.input[q+4*i+2], p.input[q+4*i+3]))
 //@   ensures ok && byteSize == 8 ==> forall i int :: 0 <= i && i < n ==> r.values[i] == f64frombits(specBE64(p.input[q+8*i], p.input[q+8*i+1], p.input[q+8*i+2], p.input[q+8*i+3], p.input[q+8*i+4], p.input[q+8*i+5], p.input[q+8*i+6], p.input[q+8*i+7]))
+//@   allocates 64*length + 640
+//@   allocates_on_panic 64*length + 640
 //@   loop 1
+//@     invariant allocated() - old(allocated()) <= 16*valueCounts + 16*i
 //@     invariant 0 <= i && i <= valueCounts && valueCounts == n && length % byteSize == 0 && len(values) == n && fresh(values) && p.pos == q
 //@     invariant forall k int :: 0 <= k && k < i ==> isfloat(values[k])
 //@     invariant byteSize == 4 ==> forall k int :: 0 <= k && k < i ==> fval(values[k]) == f32frombits(specBE32(p.input[q+4*k], p.input[q+4*k+1], p.input[q+4*k+2], p.input[q+4*k+3]))
@@ -172,17 +184,22 @@ func specIsItemCode(fc int) bool {
 //@   ensures ok && p.msgLength != 10 && fc == 26 ==> forall i int :: 0 <= i && 2*i < dl ==> cast(dataItem, *IntNode).values[i] == int16(specBE16(p.input[body+2*i], p.input[body+2*i+1]))
 //@   ensures ok && p.msgLength != 10 && fc == 41 ==> forall i int :: 0 <= i && i < dl ==> cast(dataItem, *UintNode).values[i] == p.input[body+i]
 //@   ensures ok && p.msgLength != 10 && fc == 42 ==> forall i int :: 0 <= i && 2*i < dl ==> cast(dataItem, *UintNode).values[i] == specBE16(p.input[body+2*i], p.input[body+2*i+1])
+//@   allocates ite(p.msgLength == 10, 64, ite(ok, 512*(p.pos - q) - 128, 512*(len(p.input) - q) + 1024))
+//@   allocates_on_panic 512*(len(p.input) - p.pos) + 1024
 //@   loop 1
 //@     invariant 1 <= lengthBytesCount && lengthBytesCount <= 3 && lengthBytesCount == nlb && len(lengthBytes) == lengthBytesCount
 //@     invariant 0 <= rangeindex+1 && rangeindex+1 <= lengthBytesCount && p.pos == q + 1 && q < len(p.input) && lengthBytesCount <= len(p.input) - p.pos
 //@     invariant length == specDecPrefix(lengthBytesCount, rangeindex+1, p.input[q+1], p.input[q+2], p.input[q+3])
 //@   loop 2
+//@     invariant allocated() - old(allocated()) <= 512*(p.pos - body) - 64*i
 //@     invariant 0 <= i && i <= length && len(values) == i && fresh(values) && body <= p.pos && p.pos <= len(p.input) && length == dl
 //@     invariant forall k int :: 0 <= k && k < i ==> typeis(values[k], ItemNode)
 //@   loop 3
+//@     invariant allocated() - old(allocated()) <= 16*length + 16*(rangeindex+1)
 //@     invariant 0 <= rangeindex+1 && rangeindex+1 <= length && len(values) == length && fresh(values) && p.pos == body && length == dl && length <= len(p.input) - p.pos
 //@     invariant forall k int :: 0 <= k && k <= rangeindex ==> typeis(values[k], int) && ival(values[k]) == p.input[body+k]
 //@   loop 4
+//@     invariant allocated() - old(allocated()) <= 16*length + 16*(rangeindex+1)
 //@     invariant 0 <= rangeindex+1 && rangeindex+1 <= length && len(values) == length && fresh(values) && p.pos == body && length == dl && length <= len(p.input) - p.pos
 //@     invariant forall k int :: 0 <= k && k <= rangeindex ==> typeis(values[k], bool) && bval(values[k]) == (p.input[body+k] != 0)
 
@@ -192,6 +209,8 @@ func specIsItemCode(fc int) bool {
 //@   maypanic
 //@   modifies p.pos, p.msg
 //@   requires p.pos == 4 && len(p.input) >= 14 && p.msgLength == len(p.input) - 4
+//@   allocates 512*len(p.input) + 2048
+//@   allocates_on_panic 512*len(p.input) + 2048
 //@   let st = p.input[9]
 //@   let m = cast(p.msg, *DataMessage)
 //@   let c = cast(p.msg, *ControlMessage)
@@ -208,6 +227,7 @@ func specIsItemCode(fc int) bool {
 //@   property C03 C07 C01 C14 C11
 //@   recover
 //@   bounded_view input
+//@   allocates 512*len(input) + 4096
 //@   let st = input[9]
 //@   let m = cast(msg, *DataMessage)
 //@   let c = cast(msg, *ControlMessage)
@@ -221,6 +241,7 @@ func specIsItemCode(fc int) bool {
 //@   ensures ok && st != 0 ==> forall k int :: 0 <= k && k < 10 ==> c.header[k] == input[4+k]
 //@   rac_ensures ok == racAccepts(input)
 //@   rac_ensures ok ==> racReencodes(input, msg)
+//@   rac_ensures racAllocLinear(input)
 
 // ---------------------------------------------------------------------------------------------
 // Run-time oracle (used by rac_ensures only: bounded search and replay, never counted as proved).
@@ -361,4 +382,18 @@ func racReencodes(b []byte, msg interface{ ToBytes() []byte }) bool {
 		}
 	}
 	return true
+}
+
+// racAllocLinear decodes the input once more and compares the bytes the Go runtime reports as allocated meanwhile with a
+// generous linear budget (the constants are far above what the ghost accounting proves, so that scheduler and test-harness
+// noise cannot raise an alarm; an allocation sized from a declared length exceeds it by orders of magnitude).
+func racAllocLinear(input []byte) bool {
+	var m0, m1 runtime.MemStats
+	runtime.ReadMemStats(&m0)
+	func() {
+		defer func() { recover() }()
+		Parse(input)
+	}()
+	runtime.ReadMemStats(&m1)
+	return m1.TotalAlloc-m0.TotalAlloc <= uint64(2048*len(input)+(1<<20))
 }
